@@ -63,6 +63,9 @@ IsModelMutation(mu) == mu.k # "SQL"      \* isinstance(mutation, BaseModelMutati
 OrigData(attrs) == IF Get(attrs, "null", FALSE) = TRUE THEN "orig-n" ELSE "orig-nn"
 Field(t, attrs) == [ftype |-> t, attrs |-> attrs, rel |-> None, data |-> OrigData(attrs)]
 FKField(target, attrs) == [ftype |-> "FK", attrs |-> attrs, rel |-> target, data |-> OrigData(attrs)]
+(* a OneToOneField is a relation column that is unique by itself: its signature says unique = TRUE *)
+O2OField(target, attrs) == [ftype |-> "O2O", attrs |-> attrs @@ D1("unique", TRUE), rel |-> target,
+                            data |-> OrigData(attrs)]
 IdField == Field("Auto", D1("primary_key", TRUE))
 M2MField(target) == [ftype |-> "M2M", attrs |-> EmptyDict, rel |-> target, data |-> "orig-nn"]
 IxFG   == [fields |-> <<"f", "g">>, name |-> "ix_fg", cond |-> None]
@@ -96,6 +99,13 @@ Start(id) ==
     [] id = 5 ->          \* A references B: the referenced model sorts AFTER its referrer
         [A |-> Model("A", [id |-> IdField,
                            f |-> FKField("B", EmptyDict),
+                           g |-> Field("Int", D1("null", TRUE))], <<>>),
+         B |-> Model("B", [id |-> IdField,
+                           f |-> Field("Char", D1("max_length", 10)),
+                           g |-> Field("Int", EmptyDict)], <<>>)]
+    [] id = 10 ->         \* A has a one-to-one relation to B (nullable) next to a plain column
+        [A |-> Model("A", [id |-> IdField,
+                           f |-> O2OField("B", D1("null", TRUE)),
                            g |-> Field("Int", D1("null", TRUE))], <<>>),
          B |-> Model("B", [id |-> IdField,
                            f |-> Field("Char", D1("max_length", 10)),
@@ -170,8 +180,11 @@ Alphabet ==
         UNION { ModelMutations(m) : m \in ModelNames }
         \cup { MAdd(m, "h", "FK", D2("null", TRUE, "related_model", t), None)
                  : m \in {"A", "B"}, t \in ModelNames }
+        \cup { MAdd(m, "h", "O2O", D3("null", TRUE, "related_model", t, "unique", TRUE), None)
+                 : m \in {"A", "B"}, t \in ModelNames }
+        \cup { MChg("A", "g", None, D1("db_index", TRUE), None) }
         \cup { MDel(m, x) : m \in {"A", "B"}, x \in {"f", "h"} }
-        \cup { MRenF(m, "h", "g") : m \in {"B"} }
+        \cup { MRenF(m, "h", "g") : m \in {"B"} } \cup { MRenF("A", "f", "h") }
     [] AlphaId = 6 ->      \* plain column changes on two models (multi-table evolutions)
         UNION { { MAdd(m, "h", "Int", D1("null", TRUE), None),
                   MAdd(m, "h", "Char", D1("max_length", 10), "i"),
